@@ -762,7 +762,9 @@ theorem processSegment_nonneg (s : FStream) (conv : Option FMP4Conv) (seg : Segm
     ∀ d ∈ ds, 0 ≤ d.pts := by
   unfold FStream.processSegment at h
   split at h
-  · cases h
+  · split at h
+    · cases h; intro d hd; cases hd
+    · cases h
   · split at h
     · cases h
     · split at h
